@@ -88,16 +88,27 @@ def build_harness(ctx):
     return lib.Harness(exe, env=ASAN_ENV)
 
 
+class ProbeCrash(Exception):
+    pass
+
+
 class Case:
     """one value: python dict t, generator class, JSON text"""
-    def __init__(self, klass, t, flagsets=None, sweep=True, dyn=True, file=True, note='', allocfail=False, deep=None):
+    def __init__(self, klass, t, flagsets=None, sweep=True, dyn=True, file=True, note='', allocfail=False, deep=None, badname=False):
         self.klass, self.t, self.flagsets, self.sweep, self.dyn, self.file, self.note = klass, t, flagsets, sweep, dyn, file, note
         self.allocfail = allocfail
+        self.badname = badname    # a union vector field name longer than FLATCC_JSON_PRINT_NAME_LEN_MAX: the printer must refuse with bad_input
         self.deep = deep          # (depth, ntv): built with the builder API instead of the JSON parser (deeper than parser / verifier accept)
         self.load_line = 'loaddeep %d %d' % deep if deep else None
         self.json = U.t_json(t)
         if self.load_line is None: self.load_line = 'load ' + self.json.hex()
         self.feat = U.features(t)
+
+
+def san_summary(err):
+    """the lines of a sanitizer report that name the error, else the end of stderr"""
+    ls = [l.strip() for l in err.split('\n') if 'ERROR: AddressSanitizer' in l or 'SUMMARY:' in l or 'runtime error' in l or ' of size ' in l]
+    return (' | '.join(ls[:4]) or ' '.join(err.strip().split('\n')[-6:]))[:700]
 
 
 def hrun(H, lines, timeout=900):
@@ -148,13 +159,18 @@ def run(ctx):
     ctx.sample({'number_format': lines[1], 'reply': res[1], 'max_bytes_touched': worst})
 
     # ------------------------------------------------------------ 1. probes: which repairs does the tree have
-    variant = probes(ctx, H, RSV)
+    try:
+        variant = probes(ctx, H, RSV)
+    except ProbeCrash:
+        # the printer kills the process already on the smallest documents: reported with the request as replay; sweeping on would only repeat it
+        ctx.finish_args = dict(rule='probe documents only: the harness process died on one of them', explanation='see the crash:probe violation')
+        return
     var = ''.join('1' if variant[k] else '0' for k in ('progress', 'b64', 'end', 'sep'))
     ctx.log('tree variant (fix_progress fix_b64 fix_end fix_sep) = %s' % var)
     ctx.notes.append('model variant used for the correspondence: %s (1111 = all repairs of fixes/C11-*.patch present)' % var)
 
     # ------------------------------------------------------------ 2. values
-    cases = make_cases(ctx, rng, RSV, FLUSH)
+    cases = make_cases(ctx, rng, RSV, FLUSH, consts['PRINT_NAME_LEN_MAX'])
     # number texts as the implementation formats them
     ds, fs = set(), set()
     for c in cases: U.collect_floats(c.t, ds, fs)
@@ -216,14 +232,14 @@ def run(ctx):
                     if b < a: continue
                     cl.append('sweep %d %d %d %d' % (fl, ind, a, b)); metas.append(('sweep', p, (a, b)))
                     parts = [(a, b)] if a >= lo_m else ([(x, x) for x in (a, a + 1, a + 2) if x < min(lo_m, b + 1)] + ([(lo_m, b)] if lo_m <= b else []))
-                    for a2, b2 in parts:
+                    for a2, b2 in ([] if c.badname else parts):
                         cost = (b2 - a2 + 1) * (p['nops'] + (L * 40) // max(1, a2 - RSV))
                         mlines.append((p, 'sweep', (a, b, a2, b2), 'sweep %s f %d %d %d %d %d %s' % (var, a2, b2, ind, fl & 1, (fl >> 1) & 1, p['tok']), cost))
-            if c.sweep and not skip_buffers and p['noerr']:
+            if c.sweep and not skip_buffers and p['noerr'] and not c.badname:
                 # the same fixed buffers finished through flatcc_json_printer_finalize(), around the size where its newline no longer fits
                 fa, fb = max(lo, L + RSV - 3), L + RSV + 6
                 cl.append('finsweep %d %d %d %d' % (fl, ind, fa, fb)); metas.append(('finsweep', p, (fa, fb)))
-            if c.file and p['noerr']:
+            if c.file and p['noerr'] and not c.badname:
                 cl.append('filefin %d %d' % (fl, ind)); metas.append(('filefin', p, None))
             if c.dyn and not skip_buffers:
                 sizes = sorted(set([0, 1, RSV - 1, RSV, RSV + 1, RSV + 2, RSV + 3, 100, 128, 4096, max(1, L), L + RSV - 1, L + RSV, L + RSV + 1] +
@@ -232,7 +248,7 @@ def run(ctx):
                 for sz in sizes:
                     cl.append('dyn %d %d %d' % (fl, ind, sz)); metas.append(('dyn', p, (sz, 0)))
                 # EVERY initial size of the growing buffer for short texts
-                if c.sweep is True and L <= (4000 if ctx.thorough else 700):
+                if c.sweep is True and not c.badname and L <= (4000 if ctx.thorough else 700):
                     cl.append('dynsweep %d %d %d %d' % (fl, ind, 1, L + RSV + 3)); metas.append(('dynsweep', p, (1, L + RSV + 3)))
                 # allocation failures: the k-th enlargement fails (overflow must be reported, nothing written outside)
                 if c.allocfail:
@@ -241,7 +257,7 @@ def run(ctx):
                             cl.append('dyn %d %d %d %d' % (fl, ind, sz, k)); metas.append(('dyn', p, (sz, k)))
             if c.file:
                 cl.append('file %d %d' % (fl, ind)); metas.append(('file', p, None))
-                mlines.append((p, 'file', None, 'run %s l 0 - %d %d %d %s' % (var, ind, fl & 1, (fl >> 1) & 1, p['tok']), p['nops']))
+                if not c.badname: mlines.append((p, 'file', None, 'run %s l 0 - %d %d %d %s' % (var, ind, fl & 1, (fl >> 1) & 1, p['tok']), p['nops']))
         units.append((c, cl, metas))
 
     # implementation: values spread over harness processes
@@ -264,7 +280,7 @@ def run(ctx):
                     outs.append(res[k:k + len(cl)]); k += len(cl); done_units += 1
                     continue
                 got = res[k:]
-                tail = ' '.join(err.strip().split('\n')[-8:])[:500]
+                tail = san_summary(err)
                 outs.append(got + ['CRASH ' + tail] + ['SKIPPED'] * (len(cl) - len(got) - 1))
                 done_units += 1
                 break
@@ -295,7 +311,7 @@ def run(ctx):
                 if r == 'SKIPPED': continue
                 if r.startswith('CRASH'):
                     ctx.count(line, klass='crash')
-                    ctx.violation('crash:' + kind, 'the harness process died (memory error beyond the guard zone, or fatal signal) while printing: %s, class %s, flags %d indent %d: %s' % (
+                    ctx.violation('crash:' + c.klass, 'the harness process died (memory error beyond the guard zone, or fatal signal) while printing: %s, class %s, flags %d indent %d: %s' % (
                         line, c.klass, p['fl'], p['ind'], r[:300]), {'klass': c.klass, 'json_hex': c.json.hex(), 'json': c.json.decode('latin1')[:1500], 'flags': p['fl'], 'indent': p['ind'],
                                                                      'harness_lines': [c.load_line, 'ref %d %d' % (p['fl'], p['ind']), line], 'stderr': r[:1500]})
                     continue
@@ -312,7 +328,7 @@ def run(ctx):
                     f = r.split(' ')
                     alloc = f[1] if len(f) > 1 else '-'
                     impl[(id(p), kind, meta)] = (f[0], line, alloc)
-                    mlines.append((p, 'dyn', meta, 'run %s d %d %s %d %d %d %s' % (var, meta[0], alloc, p['ind'], p['fl'] & 1, (p['fl'] >> 1) & 1, p['tok']), p['nops']))
+                    if not c.badname: mlines.append((p, 'dyn', meta, 'run %s d %d %s %d %d %d %s' % (var, meta[0], alloc, p['ind'], p['fl'] & 1, (p['fl'] >> 1) & 1, p['tok']), p['nops']))
                     continue
                 impl[(id(p), kind, meta)] = (r, line)
     ctx.log('%d values, %d (value, flags) pairs, %d model requests' % (len(cases), len(plans), len(mlines)))
@@ -378,7 +394,7 @@ def run(ctx):
             if (rec['ret'] >= 0) != want_ok:
                 ctx.violation('success-iff-fits', 'fixed buffer returned %d (error %d) but the text of %d bytes %s size - reserve = %d: %s' % (
                     rec['ret'], rec['err'], L, 'fits below' if want_ok else 'does not fit below', size - RSV, what), replay_of(c, p, line)); return True
-            if rec['ret'] < 0 and rec['err'] not in (E_OVERFLOW, E_DEEP):
+            if rec['ret'] < 0 and rec['err'] not in ((E_OVERFLOW, E_DEEP, consts['PE_bad_input']) if c.badname else (E_OVERFLOW, E_DEEP)):
                 ctx.violation('error-code', 'unexpected error code %d: %s' % (rec['err'], what), replay_of(c, p, line)); return True
         elif alloc_failed:
             if rec['ret'] >= 0 or rec['err'] != E_OVERFLOW:
@@ -408,6 +424,10 @@ def run(ctx):
         rec = {'ret': ret, 'err': err, 'over': over, 'hang': hang, 'ok': 1}
         if hang or over:
             oracle(c, p, 'growing', 0, rec, r[1]); continue
+        if c.badname:
+            if ret >= 0 or err != consts['PE_bad_input'] or hang or over:
+                ctx.violation('name-limit', 'a union vector field whose name is longer than FLATCC_JSON_PRINT_NAME_LEN_MAX printed with return %d error %d instead of the bad_input error (class %s)' % (ret, err, c.klass), replay_of(c, p, r[1]))
+            continue
         if p['noerr']:
             if ret < 0:
                 ctx.violation('modes-disagree', 'growing buffer reports error %d for a value within the nesting limit (class %s)' % (err, c.klass), replay_of(c, p, r[1]))
@@ -588,6 +608,11 @@ def probes(ctx, H, RSV):
         load = 'loaddeep %d %d' % deep if deep else 'load ' + j.hex()
         all_lines = ['timeout 250', load] + lines      # probes expect hangs on the pinned tree: short CPU-time limit
         res, err = hrun(H, all_lines, timeout=300)
+        dead = next((i for i, r in enumerate(res) if r.startswith('CRASH')), None)
+        if dead is not None:
+            ctx.violation('crash:probe', 'the harness process died (memory error beyond the guard zone, or fatal signal) on the request `%s` of a probe document: %s' % (
+                all_lines[dead][:80], san_summary(err)), {'json': j.decode('latin1')[:600], 'json_hex': j.hex(), 'harness_lines': all_lines[1:dead + 1], 'stderr': err[-2000:]})
+            raise ProbeCrash()
         if not res[1].startswith('OK'):
             raise lib.CheckError('the harness could not build the buffer of a probe document (%s): reply %r; document: %s' % (load[:40], res[1][:120], j.decode('latin1')[:400]))
         return j, all_lines[1:], res[2:], err
@@ -643,7 +668,7 @@ def probes(ctx, H, RSV):
 
 
 # ---------------------------------------------------------------- values
-def make_cases(ctx, rng, RSV, FLUSH):
+def make_cases(ctx, rng, RSV, FLUSH, NAME_MAX=100):
     T = ctx.thorough
     cs = []
     add = lambda *a, **k: cs.append(Case(*a, **k))
@@ -693,6 +718,11 @@ def make_cases(ctx, rng, RSV, FLUSH):
     for n in ((3, 4, 7, 40) if not T else (3, 4, 5, 6, 7, 10, 20, 40)):
         add('long-number-vector', {'dv': [LONGD[i % len(LONGD)] for i in range(n)]}, flagsets=[(0, 0), (1, 0)] + ([(0, 1)] if n in (3, 7) else []))
         add('long-number-vector', {'iv': [-9223372036854775808 + i for i in range(n)], 'dv': [LONGD[(i + 2) % len(LONGD)] for i in range(n)]}, flagsets=[(0, 0)])
+    # union vector fields ("<name>_type" is assembled in a scratch array) with names of every length 90..100, and beyond the limit
+    for nm in U.UVNAMES:
+        uv = [('str', b'ab'), ('NONE', None), ('T', {'i': 1})]
+        if len(nm) <= 100: add('union-vector-name-%d' % len(nm), {nm: uv, 'i': 3}, flagsets=[(0, 0), (0, 1), (1, 0)])
+        else: add('union-vector-name-%d' % len(nm), {'i': 3, 't2': {'i': 1, nm: uv}}, flagsets=[(0, 0), (0, 1)], badname=len(nm) > NAME_MAX, sweep='edges')
     # a field of enum type whose 31-character name and 31-character symbol are printed back to back (two symbols, no check between)
     add('enum-long-name', {U.F31: 9, 'i': 5}, flagsets=[(0, 0), (0, 1), (1, 0), (8, 0), (1, 2)])
     add('enum-long-name', {'s': b'abc', 'tv': [{U.F31: 9}, {U.F31: 9, 'e': 9}], 'ev': [9, 9, 9], U.F31: 9}, flagsets=[(0, 0), (0, 2), (1, 0)])
